@@ -10,7 +10,7 @@ txt = json.dumps({k: p[k] for k in ('id', 'title', 'statement', 'quantifier', 'w
 print(f"""You are a careful adversarial engineer. Your job: write realistic, subtle BUG-INTRODUCING changes ("seeded defects") to the Cython compiler source, which will later be used to evaluate an independent verification tool that you know nothing about.
 
 WORKSPACE
-- Your scratch git worktree of the Cython repository (pinned commit) is: /tmp/seed/{pid}/wt  . Work ONLY there and in /tmp/seed/{pid}/ . Do NOT read, list or modify /verif or /repo (those are off limits), and do not commit anything.
+- Your scratch git worktree of the Cython repository (pinned commit) is: /tmp/seed/{pid}/wt  . Work ONLY there and in /tmp/seed/{pid}/ . Do NOT read, list or modify /verif or /repo (those are off limits), and do not commit anything. NEVER use `git stash` (the stash is shared between several worktrees of this repository and other people are working in them); to restore your tree use `git -C <your worktree> checkout -- .` only.
 - Python interpreter: /venv/bin/python (3.12). The worktree has no compiled .so files, so `import Cython` from the worktree (cwd = worktree, or PYTHONPATH=/tmp/seed/{pid}/wt) runs the compiler as pure Python from your edited sources. No network.
 - To compile+build a .pyx/.py into an importable extension with the worktree's compiler: `/tmp/seed/build_pyx.sh /tmp/seed/{pid}/wt /path/to/dir/mod.pyx` (builds next to the source; import it with that dir on sys.path). gcc and clang are available. numpy is available.
 - The existing pinned test suite: `/tmp/seed/check_baseline.py /tmp/seed/{pid}/wt` (about 10 s) must print 504/504 and exit 0 WITH your change applied.
